@@ -105,7 +105,8 @@ def _leaf(r, pool, ids, rel, opts):
     from highdicom import sr
     from pydicom.sr.codedict import codes
     name, nm = _name(r)
-    kinds = ['TEXT', 'CODE', 'NUM', 'UIDREF', 'IMAGE', 'IMAGE', 'COMPOSITE', 'SCOORD', 'PNAME', 'DATE']
+    kinds = ['TEXT', 'CODE', 'NUM', 'NUM', 'UIDREF', 'IMAGE', 'IMAGE', 'COMPOSITE', 'SCOORD', 'PNAME', 'DATE', 'TIME', 'DATETIME',
+             'TCOORD', 'WAVEFORM']
     if opts.get('scoord3d'):
         kinds += ['SCOORD3D'] * opts.get('scoord3d_weight', 1)
     vt = r.choice(kinds)
@@ -124,7 +125,29 @@ def _leaf(r, pool, ids, rel, opts):
     elif vt == 'CODE':
         it = sr.CodeContentItem(name=name, value=codes.SCT.Liver if r.random() < 0.5 else codes.SCT.Kidney, relationship_type=rel)
     elif vt == 'NUM':
-        it = sr.NumContentItem(name=name, value=r.randint(-50, 50) / 4, unit=codes.UCUM.Millimeter, relationship_type=rel)
+        # every optional argument: a qualifier code that differs from the unit code
+        qual = r.choice([None, codes.DCM.NotANumber if hasattr(codes.DCM, 'NotANumber') else codes.SCT.Liver,
+                         sr.CodedConcept(value='114006', scheme_designator='DCM', meaning='Measurement failure')])
+        it = sr.NumContentItem(name=name, value=r.randint(-50, 50) / 4, unit=r.choice([codes.UCUM.Millimeter, codes.UCUM.Centimeter]),
+                               qualifier=qual, relationship_type=rel)
+    elif vt == 'TIME':
+        it = sr.TimeContentItem(name=name, value='1%d3000' % r.randint(0, 9), relationship_type=rel)
+    elif vt == 'DATETIME':
+        it = sr.DateTimeContentItem(name=name, value='202001021%d3000' % r.randint(0, 9), relationship_type=rel)
+    elif vt == 'TCOORD':
+        kind = r.choice(['samples', 'offsets', 'datetimes'])
+        import datetime
+        it = sr.TcoordContentItem(
+            name=name, temporal_range_type=r.choice(['POINT', 'MULTIPOINT', 'SEGMENT']),
+            referenced_sample_positions=[1, 5] if kind == 'samples' else None,
+            referenced_time_offsets=[0.5, 2.0] if kind == 'offsets' else None,
+            referenced_date_time=[datetime.datetime(2020, 1, 2, 3, 4, 5), datetime.datetime(2020, 1, 2, 3, 5, 5)] if kind == 'datetimes' else None,
+            relationship_type=rel)
+    elif vt == 'WAVEFORM':
+        # references an instance, but is neither IMAGE nor COMPOSITE: no evidence is demanded for it
+        it = sr.WaveformContentItem(name=name, referenced_sop_class_uid='1.2.840.10008.5.1.4.1.1.9.1.1',
+                                    referenced_sop_instance_uid=uid(r, 'wave'),
+                                    referenced_waveform_channels=r.choice([None, [(1, 1), (1, 2)]]), relationship_type=rel)
     elif vt == 'UIDREF':
         # a UID that equals a pool instance must NOT count as a reference
         it = sr.UIDRefContentItem(name=name, value=r.choice(pool)['inst'], relationship_type=rel)
@@ -134,11 +157,14 @@ def _leaf(r, pool, ids, rel, opts):
         it = sr.DateContentItem(name=name, value='20200102', relationship_type=rel)
     elif vt == 'IMAGE':
         cls, inst = pick(True)
-        fr = None
-        if r.random() < 0.3:
+        fr = sg = None
+        u = r.random()
+        if u < 0.3:
             fr = sorted(r.sample(range(1, 9), r.randint(1, 3)))
+        elif u < 0.45:
+            sg = sorted(r.sample(range(1, 5), r.randint(1, 2)))
         it = sr.ImageContentItem(name=name, referenced_sop_class_uid=cls, referenced_sop_instance_uid=inst,
-                                 referenced_frame_numbers=fr, relationship_type=rel)
+                                 referenced_frame_numbers=fr, referenced_segment_numbers=sg, relationship_type=rel)
         spec['ref'] = (cls, inst)
     elif vt == 'COMPOSITE':
         cls, inst = pick(False)
@@ -149,7 +175,9 @@ def _leaf(r, pool, ids, rel, opts):
         gt = r.choice(['POINT', 'POLYLINE', 'CIRCLE'])
         n = {'POINT': 1, 'POLYLINE': 3, 'CIRCLE': 2}[gt]
         data = np.array([[r.randint(0, 40) / 2, r.randint(0, 40) / 2] for _ in range(n)])
-        it = sr.ScoordContentItem(name=name, graphic_type=gt, graphic_data=data, relationship_type=rel)
+        it = sr.ScoordContentItem(name=name, graphic_type=gt, graphic_data=data,
+                                  pixel_origin_interpretation=r.choice([None, 'VOLUME', 'FRAME']),
+                                  fiducial_uid=r.choice([None, uid(r, 'fid')]), relationship_type=rel)
         # reference nested below a non-container item
         cls, inst = pick(True)
         child = sr.ImageContentItem(name=_name(r)[0], referenced_sop_class_uid=cls, referenced_sop_instance_uid=inst,
@@ -165,7 +193,8 @@ def _leaf(r, pool, ids, rel, opts):
         n = {'POINT': 1, 'POLYLINE': 3}[gt]
         data = np.array([[r.randint(0, 40) / 2, r.randint(0, 40) / 2, r.randint(0, 40) / 2] for _ in range(n)])
         it = sr.Scoord3DContentItem(name=name, graphic_type=gt, graphic_data=data,
-                                    frame_of_reference_uid=uid(r, 'for'), relationship_type=rel)
+                                    frame_of_reference_uid=uid(r, 'for'), fiducial_uid=r.choice([None, uid(r, 'fid')]),
+                                    relationship_type=rel)
     else:  # pragma: no cover
         raise AssertionError(vt)
     return it, spec
